@@ -430,7 +430,34 @@ func c16Grammar(t *rapid.T, parser string) []byte {
 			}
 		}
 	default:
-		parts := []string{"[", "]", ",", " ", "0", "1ms", "1s", "-1s", "1h", "1", "ms", "1e3s", "9999999h", "0s", "1ms", "[0", ",,", "1.5ms", ".5s", "+1s", "∞"}
+		if rapid.IntRange(0, 2).Draw(t, "listform") == 0 {
+			// a well-bracketed list whose elements are durations from the ends of the range, alone or joined by the
+			// separators other tools use for ranges and steps (first:last:step, first..last, first-last/step)
+			durs := []string{"-2000000h", "2000000h", "2562047h", "-2562047h", "2562047h47m16.854775807s", "-2562047h47m16.854775808s", "1h", "1ns", "0", "10ms", "-1ns", "9223372036854775807ns", "1"}
+			b.WriteString("[")
+			for i, n := 0, rapid.IntRange(1, 4).Draw(t, "nel"); i < n; i++ {
+				if i > 0 {
+					b.WriteString(rapid.SampledFrom([]string{",", ",", ", "}).Draw(t, fmt.Sprintf("sep%d", i)))
+				}
+				sep := rapid.SampledFrom([]string{":", ":", "..", "-", "/", ";"}).Draw(t, fmt.Sprintf("rs%d", i))
+				if rapid.Bool().Draw(t, fmt.Sprintf("span%d", i)) {
+					// from far below zero to far above it, in small steps: the span itself is beyond a Duration
+					b.WriteString(rapid.SampledFrom([]string{"-2000000h", "-2562047h", "-2562047h47m16.854775808s", "-1300000h"}).Draw(t, fmt.Sprintf("lo%d", i)) + sep +
+						rapid.SampledFrom([]string{"2000000h", "2562047h", "2562047h47m16.854775807s", "1300000h"}).Draw(t, fmt.Sprintf("hi%d", i)) + sep +
+						rapid.SampledFrom([]string{"1h", "1ns", "10ms", "1000000h"}).Draw(t, fmt.Sprintf("st%d", i)))
+					continue
+				}
+				for j, m := 0, rapid.IntRange(1, 3).Draw(t, fmt.Sprintf("nd%d", i)); j < m; j++ {
+					if j > 0 {
+						b.WriteString(sep)
+					}
+					b.WriteString(rapid.SampledFrom(durs).Draw(t, fmt.Sprintf("d%d.%d", i, j)))
+				}
+			}
+			b.WriteString("]")
+			break
+		}
+		parts := []string{"[", "]", ",", " ", "0", "1ms", "1s", "-1s", "1h", "1", "ms", "1e3s", "9999999h", "0s", "1ms", "[0", ",,", "1.5ms", ".5s", "+1s", "∞", ":", "-2000000h", "2000000h"}
 		for i, n := 0, rapid.IntRange(0, 8).Draw(t, "nparts"); i < n; i++ {
 			b.WriteString(rapid.SampledFrom(parts).Draw(t, fmt.Sprintf("p%d", i)))
 		}
